@@ -145,7 +145,7 @@ def build_dyn(adapter):
 def run_dyn(binary, seed):
     p = subprocess.run([binary, str(seed)], capture_output=True, text=True, timeout=300, env=core.goenv())
     lines = [l for l in p.stdout.splitlines() if l.startswith("trace ")]
-    return p.returncode, lines, p.stderr[-2000:]
+    return p.returncode, lines, p.stderr[-4000:]
 
 
 def driver(mode, text):
@@ -315,6 +315,9 @@ def dynamic(ctx, rows):
                 ctx.violation(f"dyn-run-{a}.txt", f"harness {a} seed {seed} exited {rc}\n{err}", no_input=True)
                 break
             lines += [(a, seed, l) for l in ls]
+            for n in err.splitlines():
+                if n.startswith("note ") and n not in cov.setdefault("dynamic_notes", []) and len(cov["dynamic_notes"]) < 12:
+                    cov["dynamic_notes"].append(n)
     cov["dynamic_adapters"] = [a for a in DYN if built[a][0] is not None]
     if not lines:
         return
